@@ -36,7 +36,7 @@ ASSUMPTIONS = [
     'observation outside this property (not checked, reported to the integrator): hermitian_conjugated(InteractionOperator) with real-dtype tensors returns tensors that SHARE MEMORY with the argument (ndarray.T.conj() of a real array is a view), so editing the conjugate in place edits the original',
     'operators are in the state their class maintains (QubitOperator terms index-sorted, BosonOperator / QuadOperator terms index-sorted by the constructor, Majorana terms strictly increasing); `terms` dictionaries edited by hand into other shapes are out of scope',
     'comparisons whose decision has a relative margin < 1e-9 (where double rounding of abs / multiplication could matter) are discarded and counted, never compared',
-    'is_hermitian of sparse matrices / numpy arrays is not covered here (numeric kernels); InteractionOperator is covered (Model tie + Spec oracle, no theorem)',
+    'is_hermitian / hermitian_conjugated of dense and sparse matrices: covered for every dtype plain numpy / scipy subtraction accepts (is-hermitian-matrix stream: Model tie + exact entry-wise statement)',
 ]
 OPEN_STATEMENTS = [
     'commutes_with general path: proved in the exact regime (commutes_with_general_iff: the hypothesis is the decidable test majExactB that the driver evaluates per input and the harness counts; commutes_with_general_iff_partial keeps the abstract form) using Majorana canonicity (majorana_strings_independent); that the Model product mmul has the matrix elements of the product of the denoted operators is C01.mul_hom_majorana; outside the exact regime only the spec.eq oracle',
@@ -1497,6 +1497,142 @@ def stream_hardening(ctx):
     return s
 
 
+# ---------------------------------------------------------------- is_hermitian / hermitian_conjugated on matrices
+
+def stream_hermitian_matrix(ctx):
+    import scipy.sparse as sp
+    of = ctx.of
+    is_hermitian = of.utils.operator_utils.is_hermitian
+    hc = of.utils.operator_utils.hermitian_conjugated
+    tol_f = of.config.EQ_TOLERANCE
+    tolq = Fraction(tol_f)
+    s = Stream('is-hermitian-matrix', 'dense numpy.ndarray and scipy.sparse (csr / csc / coo) matrices of size 1-5 with dtypes '
+               'complex64 / complex128 / complex256 / float32 / float64 / int64 / int32 / bool (those for which plain numpy / scipy '
+               'subtraction works: a library-independent probe), C / Fortran order and non-contiguous views: Hermitian but not '
+               'symmetric (Pauli Y, i*antisymmetric), symmetric but not Hermitian (i*X, i*I), real symmetric, neither, entries moved '
+               'by multiples of EQ_TOLERANCE (float64 / complex128 only); expected: entry-wise |M - M^dagger| < tol computed exactly; '
+               'hermitian_conjugated(M) = conj(M).T entry-wise with the dtype preserved, argument unmodified, dense result shares no '
+               'memory with the argument; Model tie; exact comparisons, float_comparisons = 0')
+    rng = rng_for(ctx.seed, 'c02-herm-mat')
+    pool = []
+    for name in ('complex64', 'complex128', 'clongdouble', 'float32', 'float64', 'int64', 'int32', 'bool_'):
+        dt = getattr(numpy, name, None)
+        if dt is None:
+            continue
+        try:                                   # library-independent admissibility probe
+            z = numpy.zeros((2, 2), dtype=dt)
+            _ = z - numpy.conjugate(z.T)
+            pool.append((name, dt))
+        except Exception:  # noqa
+            pass
+    s.count('dense dtypes admitted: ' + ','.join(nm for nm, _ in pool))
+    n_cases = budget(ctx.tier, 200, 3000)
+    if ctx.drift:
+        n_cases = max(n_cases, 800)
+    rows = []
+    for _ in range(n_cases):
+        n = rng.choice([1, 2, 2, 3, 4, 5])
+        name, dt = rng.choice(pool)
+        cplx = numpy.dtype(dt).kind == 'c'
+        integral = numpy.dtype(dt).kind in 'iub'
+        kind = rng.choice(['herm-not-sym', 'sym-not-herm', 'real-sym', 'neither', 'hermitian', 'near'])
+        R = numpy.array([[rng.choice([0, 0, 1, -1, 2, 3]) for _x in range(n)] for _y in range(n)], dtype=float)
+        Sy = R + R.T
+        An = R - R.T
+        if kind == 'herm-not-sym':
+            M = Sy + 1j * An if cplx else Sy
+        elif kind == 'sym-not-herm':
+            M = 1j * Sy + (rng.choice([0, 1]) * numpy.eye(n)) * 1j if cplx else Sy
+        elif kind == 'real-sym':
+            M = Sy
+        elif kind == 'neither':
+            M = R + (1j * R.T if cplx else 0)
+        elif kind == 'hermitian':
+            M = Sy + 1j * An if cplx else Sy
+            if not integral:
+                M = M * rng.choice([0.5, 0.25, 1.5])
+        else:
+            M = (Sy + 1j * An if cplx else Sy).astype(complex if cplx else float)
+            if name in ('float64', 'complex128') and n > 0:
+                i, j = rng.randrange(n), rng.randrange(n)
+                M = M.astype(numpy.complex128 if cplx else numpy.float64)
+                M[i, j] += tol_f * rng.choice(FACTORS) * rng.choice([1, -1] + ([1j] if cplx else []))
+            elif not integral:
+                i, j = rng.randrange(n), rng.randrange(n)
+                if M[i, j] == 0 and M[j, i] == 0 and i != j:
+                    M[i, j] = rng.choice([2.0 ** -24, 2.0 ** -27, 2.0 ** -30])
+        if integral and name == 'bool_':
+            M = (numpy.real(M) != 0)
+        with numpy.errstate(all='ignore'):
+            M = numpy.array(M).astype(dt) if not (cplx is False and numpy.iscomplexobj(M)) else numpy.real(M).astype(dt)
+        layout = rng.choice(['C', 'F', 'view'])
+        if layout == 'F':
+            M = numpy.asfortranarray(M)
+        elif layout == 'view':
+            big_ = numpy.zeros((2 * n, 2 * n), dtype=dt)
+            big_[::2, ::2] = M
+            M = big_[::2, ::2]
+        form = rng.choice(['dense', 'dense', 'csr', 'csc', 'coo'])
+        flat = [to_gq(x) for x in numpy.asarray(M).reshape(-1)]
+        case = {'n': n, 'dtype': name, 'kind': kind, 'layout': layout, 'form': form, 'm': flat}
+        # expected, exactly
+        want, ok = True, True
+        for i in range(n):
+            for j in range(n):
+                r_, m_ = safe_lt(nsq_diff(M[i, j], numpy.conjugate(M[j, i])), tolq * tolq,
+                                 is_real(M[i, j]) and is_real(M[j, i]) and (M[i, j] == 0 or M[j, i] == 0))
+                want, ok = want and r_, ok and m_
+        if not ok:
+            s.discards += 1
+            continue
+        M0 = numpy.array(M, copy=True)
+        try:
+            if form == 'dense':
+                X = M
+            else:
+                try:
+                    X = getattr(sp, form + '_matrix')(M)
+                    _ = X - X.getH()
+                except Exception:  # noqa
+                    s.count('sparse dtype not supported by scipy: ' + name)
+                    continue
+            r1 = is_hermitian(X)
+            H = hc(X)
+            r2 = is_hermitian(X)
+            Hd = H.toarray() if form != 'dense' else H
+            unchanged = numpy.array_equal(numpy.asarray(M), M0) and (form == 'dense' or numpy.array_equal(X.toarray(), M0))
+            shares = form == 'dense' and numpy.shares_memory(H, M)
+            hdt = Hd.dtype
+        except Exception as e:  # noqa
+            s.violate('is_hermitian / hermitian_conjugated (matrix) raised %s' % type(e).__name__, case, {'error': repr(e)})
+            continue
+        s.case(case)
+        s.count('%s:%s:%s:impl=%s' % (form if form == 'dense' else 'sparse', name, kind, bool(r1)))
+        if not unchanged:
+            s.violate('is_hermitian / hermitian_conjugated modified its matrix argument', case, {})
+        if shares:
+            s.violate('hermitian_conjugated(ndarray) shares memory with its argument', case, {})
+        if bool(r1) != bool(r2):
+            s.violate('is_hermitian(matrix) is not repeatable', case, {})
+        if bool(r1) != want:
+            s.violate('is_hermitian(matrix) differs from the entry-wise test |M - M^dagger| < EQ_TOLERANCE', case,
+                      {'implementation': bool(r1), 'expected': want})
+        exp_h = numpy.conjugate(M0.T)
+        if Hd.shape != exp_h.shape or not all(exact(Hd[i, j]) == exact(exp_h[i, j]) for i in range(n) for j in range(n)):
+            s.violate('hermitian_conjugated(matrix) is not conj(M).T entry-wise', case,
+                      {'result': [to_gq(x) for x in numpy.asarray(Hd).reshape(-1)]})
+        if hdt != M0.dtype and name != 'bool_':      # numpy.conjugate(bool array) is int8: numpy's own rule
+            s.violate('hermitian_conjugated(matrix) changed the dtype', case, {'dtype': str(hdt)})
+        rows.append((case, bool(r1), [to_gq(x) for x in numpy.asarray(Hd).reshape(-1)]))
+    reqs = [{'op': 'c02.hermitian_matrix', 'n': c['n'], 'm': c['m'], 'tol': frac_json(tolq)} for c, _, _ in rows]
+    for (case, r, hflat), ans in zip(rows, ctx.driver.run(reqs)):
+        if ans['model'] != r:
+            s.disagree('is_hermitian(matrix)', case, r, ans['model'])
+        if [tuple(x) for x in ans['hc']] != [tuple(x) for x in hflat]:
+            s.disagree('hermitian_conjugated(matrix)', case, hflat, ans['hc'])
+    return s
+
+
 # ---------------------------------------------------------------- known findings
 
 def classify(v):
@@ -1537,4 +1673,4 @@ def probe_known(ctx, k):
 
 def run(ctx):
     return [stream_isclose(ctx), stream_majorana_eq(ctx), stream_commutes(ctx), stream_predicates(ctx),
-            stream_identity(ctx), stream_tensor_eq(ctx), stream_hermitian(ctx), stream_hermitian_io(ctx), stream_hardening(ctx)]
+            stream_identity(ctx), stream_tensor_eq(ctx), stream_hermitian(ctx), stream_hermitian_io(ctx), stream_hardening(ctx), stream_hermitian_matrix(ctx)]
